@@ -365,6 +365,15 @@ class KeyedSet(Generic[ItemType, KeyType], MutableSet, KeyedBase):  # pylint: di
         except TypeError:
             pass
 
+    def _from_iterable(self, it):
+        # Sets derived from this one (via |, &, -, ^) must identify items the
+        # same way this set does.
+        return type(self)(
+            it,
+            key=self._key,
+            enforce_item_equivalence=self.enforce_item_equivalence,
+        )
+
     # Magic methods
 
     def __eq__(self, other):
